@@ -36,7 +36,7 @@ func seekTS(acc, secret string, ts uint32, wantNUL bool) uint32 {
 
 func credentials() (acc, secret string, ts uint32) {
 	acc = vStringUpTo("acc", 6)
-	secret = vStringUpTo("secret", vParam("maxsecret"))
+	secret = c15Secret()
 	vAssume(vNoNUL(acc))
 	vAssume(vNoNUL(secret))
 	ts = vU32("ts")
@@ -91,11 +91,20 @@ func VH_C15_connect_resp() {
 // The constructor: builds the authenticator from the clock's timestamp.
 func VH_C15_newconnect() {
 	acc := vStringUpTo("acc", 6)
-	secret := vStringUpTo("secret", vParam("maxsecret"))
+	secret := c15Secret()
 	vAssume(vNoNUL(acc))
 	vAssume(vNoNUL(secret))
 	p := NewConnect(acc, secret, vU32("seq"))
 	vAssert("C15.cmpp20.newconnect.account", p.SourceAddr == acc)
 	vAssert("C15.cmpp20.newconnect.digest-matches-its-timestamp", p.AuthenticatorSource == string(refAuthSource(acc, secret, p.Timestamp)))
 	vReach("end")
+}
+
+// the shared secret: every string of 0..maxsecret octets, or (fixsecret > 0) every string of
+// exactly that many octets
+func c15Secret() string {
+	if n := vParam("fixsecret"); n > 0 {
+		return vString("secret", n)
+	}
+	return vStringUpTo("secret", vParam("maxsecret"))
 }
